@@ -72,3 +72,24 @@ Proof.
   - exists (mkAddr 11 1 [21] true). split; [left; reflexivity|reflexivity].
   - vm_compute. left. reflexivity.
 Qed.
+
+(* ------------------------------------------------------------------ H_delta is needed (the CDS port-removal finding) *)
+
+(* clusters 6 and 7 (two clusters of one service port) and 4 exist; the port goes away and 4 changes;
+   the delta-aware answer updates 4 but removes only 6 - as BuildDeltaClusters does when a port has a
+   subset cluster next to the plain one *)
+Definition hd_g0 : world := fun t => match t with CDS => [(4, 1); (6, 1); (7, 1)] | _ => [] end.
+Definition hd_g1 : world := fun t => match t with CDS => [(4, 2)] | _ => [] end.
+Definition hd_ops : list hop :=
+  [HReq CDS 0 [] [] [];
+   HWorld hd_g1 (fun t => match t with CDS => MDelta [(4, 2)] [6] | _ => MFull end) [CDS]].
+
+Lemma hdelta_needed :
+  let s := hrun (mkSys empty_watched (fun _ => []) hd_g0) hd_ops in
+  lookup 7 (s_world s CDS) = None /\ lookup 7 (s_cl s CDS) = Some 1 /\ In 7 (record (s_srv s) CDS) /\
+  (* the answer violates H_delta and nothing else *)
+  ~ (forall n, lookup n (c_upsert (c_remove (hd_g0 CDS) [6]) [(4, 2)]) = lookup n (hd_g1 CDS)).
+Proof.
+  split; [reflexivity|]. split; [vm_compute; reflexivity|]. split; [vm_compute; auto|].
+  intros H. specialize (H 7). vm_compute in H. discriminate.
+Qed.
